@@ -242,14 +242,28 @@ func cmdCheck(args []string) int {
 	if *failedObl != "" {
 		failed = strings.Split(*failedObl, ",")
 	}
-	// a disagreement that is fully explained by a known finding's shape is not re-reported
+	// Where the implementation is order-dependent in a way already recorded as a known finding
+	// (the model takes the map iteration order as a parameter, the harness cannot choose it),
+	// a disagreement on a recipe of exactly that shape is explained by the finding.
+	knownShape := func(shape string) bool {
+		for _, k := range kn.Findings {
+			if k.Property == prop && k.Shape == shape {
+				return true
+			}
+		}
+		return false
+	}
 	var openDis []Disagreement
+	explained := 0
 	for _, d := range dis {
-		if d.Level == "callbacks" {
-			openDis = append(openDis, d)
+		if d.Level != "callbacks" && hasMultiDictQual(d.Case) && knownShape("dict-registers-imports-in-map-order") {
+			explained++
 			continue
 		}
 		openDis = append(openDis, d)
+	}
+	if explained > 0 {
+		cx.note(fmt.Sprintf("%d correspondence disagreements on recipes of the known-finding shape dict-registers-imports-in-map-order (order is a model parameter)", explained))
 	}
 	if (len(openDis) > 0 || len(failed) > 0) && nViol == 0 {
 		// the search found no concrete failing input (the oracle ran on every generated case)
